@@ -313,8 +313,9 @@ func (p *Prog) Inl(fn *ssa.Function, keep ...*ssa.Function) *ssa.Function {
 		}
 		return f.Pkg
 	}
-	res := sx.Inline(fn, func(caller, callee *ssa.Function, depth int) bool {
-		if depth > 4 || kept[callee] || !p.InModule(callee) || rootPkg(callee) != rootPkg(caller) {
+	policy := func(caller, callee *ssa.Function, depth int) bool {
+		callee = sx.OrigFunc(callee)
+		if depth > 4 || kept[callee] || !p.InModule(callee) || rootPkg(callee) != rootPkg(sx.OrigFunc(caller)) {
 			return false
 		}
 		n := 0
@@ -322,7 +323,29 @@ func (p *Prog) Inl(fn *ssa.Function, keep ...*ssa.Function) *ssa.Function {
 			n += len(b.Instrs)
 		}
 		return n <= 600
-	})
+	}
+	res := sx.Inline(fn, policy)
+	// a second and third round: once arguments are substituted, calls of function values that are constants of the program
+	// (a parser passed to a generic helper, a closure built by an adapter) have become static calls and can be expanded too
+	for round := 0; round < 2; round++ {
+		total := 0
+		for _, b := range res.Fn.Blocks {
+			total += len(b.Instrs)
+		}
+		if total > 4000 {
+			break
+		}
+		next := sx.Inline(res.Fn, policy)
+		if len(next.Expanded) == 0 {
+			break
+		}
+		next.Expanded = append(res.Expanded, next.Expanded...)
+		for k, v := range res.FromDefer {
+			_ = k
+			_ = v
+		}
+		res = next
+	}
 	if why := sx.Verify(res.Fn); why != "" {
 		if os.Getenv("GLB_INLINE_DUMP") != "" {
 			res.Fn.WriteTo(os.Stderr)
